@@ -275,6 +275,14 @@ def job_run(ctx, jr, n, J, halting=False, pid='C03'):
 
 
 # ---------------------------------------------------------------------- native replay
+def exit_code_fails(out):
+    """str::parse::<i32> succeeds with a non-zero value"""
+    import re
+    if out is None or not re.fullmatch(r'[+-]?[0-9]+', out): return False
+    n_ = int(out)
+    return -2**31 <= n_ < 2**31 and n_ != 0
+
+
 def py_machine(v):
     """concrete abstract machine on the replayed case (iteration-indexed results)"""
     lines = v['script'].split('\n'); n = v['n']
@@ -317,7 +325,7 @@ def py_machine(v):
             else: pc = r['line']
         elif k == 'exit':
             setout(r.get('output'))
-            if r.get('output') in ('1', '7'): ok = False; err = pc
+            if exit_code_fails(r.get('output')): ok = False; err = pc
             break
         elif k == 'crash': ok = False; err = pc; break
         elif k == 'error':
@@ -330,14 +338,14 @@ def py_machine(v):
     return dict(ok=ok, err_line=(err + 1) if err is not None else None, vars=store, log=log)
 
 
-def lemma_panel():
+def lemma_panel(halting=False):
     """concrete runs used to confirm a failed step lemma natively (the verdict came from the solver): every result kind at the
     first and at a later iteration, with and without error handler, over a program with labels, outputs and a reference to x"""
     script = ':a x = c k\ny = c ${x}\n:b c k\nx =\ny = c k'
     cont = {'kind': 'continue', 'output': 'v'}
     kinds = [{'kind': 'continue'}, cont, {'kind': 'goto_label', 'label': ':b', 'output': '1'}, {'kind': 'goto_label', 'label': ':a'}, {'kind': 'goto_label', 'label': ':zz'},
              {'kind': 'goto_line', 'line': 2, 'output': '7'}, {'kind': 'goto_line', 'line': 9}, {'kind': 'goto_line', 'line': 0}, {'kind': 'error', 'message': 'e1'},
-             {'kind': 'crash', 'message': 'e2'}, {'kind': 'exit'}, {'kind': 'exit', 'output': '0'}, {'kind': 'exit', 'output': '7'}, {'kind': 'exit', 'output': 'v'}]
+             {'kind': 'crash', 'message': 'e2'}, {'kind': 'exit'}, {'kind': 'exit', 'output': '0'}, {'kind': 'exit', 'output': '7'}, {'kind': 'exit', 'output': 'v'}, {'kind': 'exit', 'output': '-1'}]
     oes = [{'kind': 'continue'}, {'kind': 'exit'}, {'kind': 'crash', 'message': 'e2'}, {'kind': 'error', 'message': 'e1'}]
     J = 6; cases = []
     for pos in (0, 1, 2):
@@ -348,7 +356,13 @@ def lemma_panel():
                     if k['kind'].startswith('goto') and pos < J - 1: res[pos + 1] = {'kind': 'exit'}       # ends loops
                     for j in range(pos + 2, J): res[j] = {'kind': 'exit'}
                     cases.append(dict(kind='c03', script=script, lines=[1, 2, 3, 4, 5], results=res, on_error_results=[dict(oe) for _ in range(J)], has_on_error=has,
-                                      vars={'x': '0'} if pos else {}, halt=None, n=5, J=J))
+                                      vars={'x': '0', 'y': '1'} if pos else {}, halt=None, n=5, J=J))
+                    if halting and not has:
+                        cases.append(dict(cases[-1], halt=[j > pos for j in range(J + 1)], results=[dict(r) for r in res]))
+    dup = ':a c k\n:a x = c k\n:a y = c k\nc k'
+    for tgt in (':a', ':b'):
+        cases.append(dict(kind='c03', script=dup, lines=[1, 2, 3, 4], results=[{'kind': 'goto_label', 'label': tgt}, {'kind': 'exit', 'output': 'v'}, {'kind': 'exit'}, {'kind': 'exit'}],
+                          on_error_results=[oes[0]] * 4, has_on_error=False, vars={}, halt=None, n=4, J=4))
     cases.append(dict(kind='c03', script='x = c k\nnope k\ny = c k', lines=[1, 2, 3], results=[dict(cont)] * 4, on_error_results=[oes[0]] * 4, has_on_error=False, vars={}, halt=None, n=3, J=4))
     return cases
 
@@ -356,7 +370,7 @@ def lemma_panel():
 def replayer(v):
     if v.get('kind') == 'lemma':
         last = None
-        for case in lemma_panel():
+        for case in lemma_panel(v.get('halting', False)):
             got = replayer(case)
             if got[0]: v['native'] = case.get('native'); v['case'] = {k: x for k, x in case.items() if k not in ('native', 'spec')}; return (True, 'run %r: %s' % (case['results'][:3], got[1]))
             if got[0] is False: last = got
@@ -438,7 +452,7 @@ def main(tier, seed, pid='C03', halting=False):
         chk.job(job_run, 'run:5lines,5iter', n=5, J=5, halting=halting, pid=pid)
         chk.bounds = dict(programs='<= 3 lines x 7 iterations, <= 4 x 6, <= 5 x 5')
     N = 5 if tier == 'quick' else 8
-    chk.job(job_runner_step, 'step:run_instructions lemma', n=N, pid=pid)
+    chk.job(job_runner_step, 'step:run_instructions lemma', n=N, pid=pid, halting=halting)
     chk.job(job_run_instruction_lemma, 'step:run_instruction lemma', pid=pid)
     chk.job(job_on_error_lemma, 'step:on_error lemma', pid=pid)
     chk.job(job_create_runtime_lemma, 'step:label-table lemma', n=N, pid=pid)
@@ -455,7 +469,7 @@ def main(tier, seed, pid='C03', halting=False):
 EXITS = ['0', '1', '7', 'v', '-1', '00', '']
 
 
-def job_runner_step(ctx, jr, n, pid='C03'):
+def job_runner_step(ctx, jr, n, pid='C03', halting=False):
     """One fetch/execute iteration of run_instructions from an ARBITRARY state (instruction index, variables, label table, shared
     state), with run_instruction and run_on_error_instruction replaced by arbitrary results and arbitrary effects on the
     variables. A run is the iteration of this step, so the lemma covers programs and runs of any length."""
@@ -475,7 +489,17 @@ def job_runner_step(ctx, jr, n, pid='C03'):
     SVT = 'types::runtime::StateValue'; k_ = ctx.types.enums[SVT].index('String')
     def sym_state(tag): return M([(e.fresh_bool('%s.present' % tag), mk_str('k'), E(SVT, k_, {k_: [H.sym_str(e, tag, 2)]}))])
     S0 = sym_state('state.before'); SA = sym_state('state.after_cmd')
-    halt = e.fresh_bool('halt')
+    # the halt flag is a monotone function of time sampled by the loads: `halt` is its value at the instruction boundary that
+    # opens the iteration; every load of the iteration returns a value that is at least that and at least the previous load
+    halt = e.fresh_bool('halt_at_boundary') if halting else False
+    loads = []
+
+    def h_load(eng, st1, a, callee):
+        if not halting: return False
+        h = eng.fresh_bool('load%d' % len(loads))
+        eng.assume(z3.Implies(halt, h))
+        if loads: eng.assume(z3.Implies(loads[-1][1], h))
+        loads.append((st1.g, h)); return h
     L = e.fresh_int('L', 0, n + 2)
     # command result
     rk = e.fresh_int('r.kind', 0, 4); rout = e.fresh_int('r.out', 0, len(EXITS)); rmsg = H.sym_str(e, 'r.msg', 2)
@@ -497,7 +521,7 @@ def job_runner_step(ctx, jr, n, pid='C03'):
         eng.store(st1, a[1], VB)
         return E('std::result::Result', zite(oe_err, 1, 0), {0: [UNIT], 1: [oe_msg]})
     e.hooks['runner::run_instruction'] = h_cmd; e.hooks['runner::run_on_error_instruction'] = h_oe
-    e.hooks['std::sync::atomic::Atomic::<bool>::load'] = lambda eng, st1, a, callee: halt
+    e.hooks['std::sync::atomic::Atomic::<bool>::load'] = h_load
     commands = T([M([]), M([])], 'types::command::Commands')
     context = T([V0, S0, commands], 'types::runtime::Context')
     env = T([Opaque('out'), Opaque('err'), e.alloc(st, False)], 'types::env::Env')
@@ -505,12 +529,16 @@ def job_runner_step(ctx, jr, n, pid='C03'):
     fr = induct.capture(e, 'core', 'runner::run_instructions', [runtime, L, False], st)
     ER = ctx.types.enums['runner::EndReason']
     obs = [(fr.st.g, zand(zeq(fr.get(fr.st, 'line'), L), zeq(fr.get(fr.st, 'end_reason').d, ER.index('ReachedEnd'))), 'entry: the run starts at the given instruction, end reason "reached end"')]
+    loads.clear()
     exits, back = fr.step(fr.st.copy())
     goes_on = back.g if back is not None else False
     rets = fr.returns(exits)
     jr.symex_time += time.time() - t0
     # ---- the step of the abstract machine of the property statement
-    live = znot(halt); fetch = zand(live, L < nlen)
+    # quiet: no load of this iteration sees the flag raised -> the machine step must happen in full. Otherwise the iteration may
+    # only end the run *before* starting the instruction (obligations marked C13 below).
+    quiet = zand(*[znot(h) for _, h in loads]) if loads else True
+    live = quiet; fetch = zand(live, L < nlen)
     meta_L = T([some(sel(prog.line, L, 0)), E(OPTION, zite(sel(prog.src, L, False), 1, 0), {0: [], 1: [mk_str('f.ds')]})], 'types::instruction::InstructionMetaInfo')
 
     def upd(mv, val_o):
@@ -527,10 +555,11 @@ def job_runner_step(ctx, jr, n, pid='C03'):
     oe_fail = zand(c_err, oe_err)
     fail = zor(c_crash, bad_label, exit_fail, oe_fail)
     cont = zand(fetch, znot(fail), znot(c_exit))
-    obs.append((True, zeq(goes_on, cont), 'the run goes on exactly when the machine does'))
+    obs.append((quiet, zeq(goes_on, cont), 'the run goes on exactly when the machine does'))
     for g_, ins, ln, vbefore, sbefore in calls['cmd']:
-        obs.append((g_, zand(fetch, zeq(ln, L), deep_eq(ins, sel_item(instrs, L)), map_eq(e, fr.st, vbefore, V0), map_eq(e, fr.st, sbefore, S0)),
+        obs.append((g_, zand(L < nlen, zeq(ln, L), deep_eq(ins, sel_item(instrs, L)), map_eq(e, fr.st, vbefore, V0), map_eq(e, fr.st, sbefore, S0)),
                     'the command is started only for an existing instruction, with that instruction, its index and the current variables and state'))
+        if halting: obs.append((g_, znot(halt), 'C13: no instruction is started once the flag is up at the instruction boundary'))
     obs.append((fetch, zor(*[g_ for g_, *_ in calls['cmd']]) if calls['cmd'] else False, 'every fetched instruction is executed'))
     obs.append((True, len(calls['cmd']) <= 1, 'one instruction per iteration'))
     for g_, msg, mt, vb in calls['oe']:
@@ -548,10 +577,16 @@ def job_runner_step(ctx, jr, n, pid='C03'):
     RUNTIME = ctx.types.enums['types::error::ScriptError'].index('Runtime')
     for rs, rv in rets:
         okc = zeq(rv.d, 0)
-        obs.append((rs.g, zeq(okc, znot(fail)), 'the run fails exactly when the machine does'))
+        obs.append((zand(rs.g, quiet), zeq(okc, znot(fail)), 'the run fails exactly when the machine does'))
         if 0 in rv.p:
             cx, er = rv.p[0][0].f
-            obs.append((zand(rs.g, halt), zand(okc, zeq(er.d, ER.index('Halted')), map_eq(e, rs, cx.f[0], V0), map_eq(e, rs, cx.f[1], S0)), 'halt: the run ends at once with the variables and state as they are'))
+            if halting:
+                obs.append((zand(rs.g, halt), zand(okc, zeq(er.d, ER.index('Halted'))), 'C13: flag up at the boundary: the run ends as halted'))
+                is_h = zand(rs.g, okc, zeq(er.d, ER.index('Halted')))
+                obs.append((is_h, zand(znot(quiet), map_eq(e, rs, cx.f[0], V0), map_eq(e, rs, cx.f[1], S0)),
+                            'C13: a halted run ends only after seeing the flag, with variables and state of the instruction boundary (no half-applied instruction)'))
+                for g_, *_ in calls['cmd']: obs.append((zand(is_h, g_), False, 'C13: the iteration that ends the run as halted has not started its instruction'))
+            else: obs.append((rs.g, zeq(er.d, ER.index('Halted')) == False if False else znot(zeq(er.d, ER.index('Halted'))), 'never halted when the flag stays down'))
             obs.append((zand(rs.g, live, L >= nlen), zand(okc, zeq(er.d, ER.index('ReachedEnd')), map_eq(e, rs, cx.f[0], V0), map_eq(e, rs, cx.f[1], S0)), 'past the last instruction: the run ends normally'))
             obs.append((zand(rs.g, c_exit, znot(exit_fail)), zand(okc, zeq(er.d, ER.index('ExitCalled')), map_eq(e, rs, cx.f[0], upd(VA, out_o)), map_eq(e, rs, cx.f[1], SA)), 'exit: the run ends with the output stored'))
         if 1 in rv.p and RUNTIME in rv.p[1][0].p:
@@ -563,7 +598,7 @@ def job_runner_step(ctx, jr, n, pid='C03'):
     for g, cnd, msg in obs: e.obligations.append(Obligation(g, cnd, '%s runner step: %s' % (pid, msg), 'assert', 'oracle'))
 
     def extract(m, o=None):
-        return dict(kind='lemma', fn='run_instructions', L=solve.model_int(m, L), program_len=solve.model_int(m, nlen), result_kind=solve.model_int(m, rk), halt=solve.model_bool(m, halt))
+        return dict(kind='lemma', fn='run_instructions', L=solve.model_int(m, L), program_len=solve.model_int(m, nlen), result_kind=solve.model_int(m, rk), halt=solve.model_bool(m, halt), halting=halting)
     res = discharge_known(e, jr, pid, {}, extract)
     witness(jr, e, 'runner step: goto by label continues', zand(goes_on, c_goto, bylabel), extract)
     witness(jr, e, 'runner step: exit with a non-zero code fails', exit_fail, extract)
